@@ -549,6 +549,14 @@ class ProjGen:
             files['%s/sub/__init__.py' % pkg] = rng.choice(['', 'from ..%s import *\n' % mods[0],
                                                             "from .leaf import f\n__all__ = ['f']\n"])
             files['%s/sub/leaf.py' % pkg] = '\n'.join(self.body(0, names)) + '\ndef f(): pass\n'
+        # a dotted file / directory name next to a nested module of the same qualified name
+        if rng.random() < 0.1:
+            files['%s/dd/__init__.py' % pkg] = ''
+            files['%s/dd/e.py' % pkg] = 'def inner(): pass\n'
+            if rng.random() < 0.5:
+                files['%s/dd.e.py' % pkg] = 'x = 1\n'
+            else:
+                files['%s/dd.e/__init__.py' % pkg] = 'x = 1\n'
         add = [pkg]
         # more roots
         if rng.random() < 0.35:
@@ -574,6 +582,11 @@ class ProjGen:
 
 
 CORPUS_PROJECTS: List[Dict[str, Any]] = [
+    # two modules of one qualified name under different parents: a dotted file / directory next to a nested module
+    {'files': [['p/__init__.py', ''], ['p/a/__init__.py', ''], ['p/a/b.py', 'def f(): pass\n'], ['p/a.b.py', 'x = 1\n']],
+     'add': ['p']},
+    {'files': [['p/__init__.py', ''], ['p/a/__init__.py', ''], ['p/a/b.py', 'def f(): pass\n'],
+               ['p/a.b/__init__.py', 'x = 1\n'], ['p/a.b/c.py', 'y = 1\n']], 'add': ['p']},
     # re-export onto a name that the package also defines (function; class with members, before and after)
     {'files': [['pkg/__init__.py', "from ._impl import f\n__all__=['f']\ndef f():\n    pass\n"],
                ['pkg/_impl.py', "def f(): pass\nclass K:\n    def m(self): pass\n"]], 'add': ['pkg']},
